@@ -134,7 +134,7 @@ def check_default_durability(ctx):
 N_DIR = 3
 
 
-def check_journal_order(ctx):
+def check_journal_order(ctx, confirm=None):
     pat = r'^journal::recovery::recover_journals$|^recover_journals$'
     ob = ctx.ob('journals/order', 'recover_journals: active = the *.jnl file with the highest id; sealed = all other *.jnl files in ascending id order; other files ignored', [pat])
     N_DIR = 3 if ctx.tier == 'quick' else 4
@@ -168,6 +168,20 @@ def check_journal_order(ctx):
                 return Ref(Cell(o))
             return o
         return f
+
+    def name_rank(i):
+        # order of the file names "<id>.jnl" as byte strings: decimal digits compared left to right, the '.' after a shorter number sorts before any digit.
+        # Exact for ids < 1000; above that the model assumes the numeric order (stated bound).
+        x = ids[i]
+        u, t, h = z3.URem(x, bv(10)), z3.URem(z3.UDiv(x, bv(10)), bv(10)), z3.UDiv(x, bv(100))
+        lex = z3.If(z3.ULT(x, bv(10)), (u + 1) * 121, z3.If(z3.ULT(x, bv(100)), (t + 1) * 121 + (u + 1) * 11, z3.If(z3.ULT(x, bv(1000)), (h + 1) * 121 + (t + 1) * 11 + (u + 1), x + 2000)))
+        return z3.If(isj[i], lex, z3.BitVec(f'file{i}.name_rank', 64))
+
+    def ov_file_name(ex, st, call):
+        o = derived('file_name', 'std::ffi::OsString')(ex, st, call)
+        if o.data.get('idx') is not None:
+            o.data['sort_rank'] = name_rank(o.data['idx'])
+        return o
 
     def ov_extension(ex, st, call):
         i = idx_of(call.args[0])
@@ -206,7 +220,7 @@ def check_journal_order(ctx):
     def ov_with_compression(ex, st, call):
         return call.args[0]
     ex, paths = ctx.run(pat, cache_key='c02.recover_journals', loop_bound=N_DIR + 2, overrides=[
-        (r'^(std::fs::)?read_dir$', ov_read_dir), (r'DirEntry::path$', derived('path', 'std::path::PathBuf')), (r'DirEntry::file_name$', derived('file_name', 'std::ffi::OsString')),
+        (r'^(std::fs::)?read_dir$', ov_read_dir), (r'DirEntry::path$', derived('path', 'std::path::PathBuf')), (r'DirEntry::file_name$', ov_file_name),
         (r'<OsString as Deref>::deref$', derived('os_str', 'std::ffi::OsStr', 'ref')), (r'OsStr::to_str$|OsString::to_str$', derived('name', 'str', 'some')),
         (r'Path::new$', derived('as_path', 'std::path::Path', 'ref')), (r'Path::extension$', ov_extension), (r'eq_ignore_ascii_case$', ov_is_jnl),
         (r'str::strip_suffix$|core::str::<impl str>::strip_suffix$', ov_strip), (r'str::parse$|core::str::<impl str>::parse$', ov_parse),
@@ -252,7 +266,7 @@ def check_journal_order(ctx):
         for (ka, ia), (kb, ib) in zip(got, got[1:]):
             if ctx.sat(p.pc + [z3.Not(z3.ULT(ids[ia], ids[ib]))], ob)[0] != z3.unsat:
                 bad.append((p, 'sealed journals are not in ascending id order: an older record can overwrite a newer one during replay')); break
-    finish(ctx, ob, bad, 'journals/wrong-order')
+    finish(ctx, ob, bad, 'journals/wrong-order', confirm)
 
 
 def check_recover_order(ctx):
@@ -332,13 +346,13 @@ def check_rotate_id(ctx):
     finish(ctx, ob, bad, 'Writer.rotate/journal-id')
 
 
-def finish(ctx, ob, bad, role):
+def finish(ctx, ob, bad, role, confirm=None):
     if ob.reach == 0:
         ob.status = 'undecided'; ob.detail = ob.detail or 'vacuous'
     elif not bad:
         ob.status = 'discharged'; ob.sample = {'ok_paths': ob.reach}
     else:
-        ctx.candidate(ob, role, f'{ob.id}: {bad[0][1]}', confirm=lambda: native_crash(ctx))
+        ctx.candidate(ob, role, f'{ob.id}: {bad[0][1]}', confirm=confirm or (lambda: native_crash(ctx)))
 
 
 # ------------------------------------------------------------------ native
@@ -359,6 +373,8 @@ def crash_programs():
     P['sealed-journals-with-clear'] = [T, ('ks', A), ('ks', B), ('insert', A, k1, '31'), ('insert', B, k1, '41'), ('rotate', B), ('flush',), X, ('clear', A), ('insert', B, k2, '42'), ('rotate', B), ('flush',), X,
                                        ('insert', A, k2, '32'), X]
     P['crash-after-reopen'] = [('ks', A), ('insert', A, k1, '31'), ('reopen',), X, ('insert', A, k2, '32'), X, ('reopen',), ('remove', A, k1), X]
+    from . import c10
+    P['digit-boundary'] = c10.digit_boundary_program()
     P['kvsep'] = [('ks', A, 'kvsep=1'), ('insert', A, k1, '31' * 40), X, ('rotate', A), ('flush',), X, ('insert', A, k1, '32' * 40), X, ('major_compact', A), X]
     return P
 
@@ -368,7 +384,8 @@ def native_crash(ctx):
     progs = crash_programs()
     n = 0
     for name, prog in progs.items():
-        v, path, d = oracle.run_program(ctx, prog, f'crash-{name}')
+        kw = {'open_opts': 'workers=0 max_journal=100000000000'} if name == 'digit-boundary' else {}
+        v, path, d = oracle.run_program(ctx, prog, f'crash-{name}', **kw)
         n += sum(1 for op in prog if op[0] == 'crash')
         if v:
             return True, path, f'program {name}: {d}'
